@@ -99,7 +99,7 @@ func init() {
 		r.Level = "model_checking"
 		r.Cov["rule"] = "TLC enumerates every program of the General family up to the length bound (exhaustive BFS over the template alphabet x initial images) and simulates longer programs with counted loops (seeded); each program is run on all 33 configurations (12 variants x parallelism 1..4) and the whole final register file and memory are compared with the final state of the sequential specification (RV32!Step); plus the Call and LineFill families and the Repo family (the repository's array-sum, bubble-sort, string-copy, string-length and prime-number programs transcribed to the abstract form, run from many more inputs than the suite uses, whole final state compared). A case is distinct by (program text, initial registers, image); all are non-trivial except programs that execute fewer than 2 instructions"
 		r.Assumptions = []string{"programs longer than the bounds are sampled only", "RV32.tla is the reference for the sequential result"}
-		runFamily(r, "C01", append(generalRuns(), famRunOf("Call", sizeForTier()), famRunOf("LineFill", sizeForTier()), famRunOf("Repo", sizeForTier())), allCfgs, func(c *ProgCase) bool { return c.Exp.N >= 2 }, func(c *ProgCase, o Obs) (bool, string) {
+		runFamily(r, "C01", append(generalRuns(), famRunOf("Call", sizeForTier()), famRunOf("LineFill", sizeForTier()), famRunOf("Repo", sizeForTier()), famRunOf("FarChain", "small"), famRunOf("FarBack", "small"), famRunOf("EndAt", "small"), famRunOf("RegDep", "small")), allCfgs, func(c *ProgCase) bool { return c.Exp.N >= 2 }, func(c *ProgCase, o Obs) (bool, string) {
 			return true, o.Describe()
 		})
 	})
